@@ -86,6 +86,61 @@ fn check_type(t: &Ty, reps: u64, rep: &mut Report) {
     rep.sample("type", 6, || Obj::new().s("type", &t.text()).raw("printed_as", crate::util::json_arr(&texts.iter().map(|s| crate::util::json_str(s)).collect::<Vec<_>>())).render());
 }
 
+/// histories on one type value: print it, widen it (or a clone made after the print) through the public `|`, print
+/// again - whatever was printed before, the text must read back as the value it was printed from
+fn check_history(a: &Ty, b: &Ty, d: &Ty, rep: &mut Report) {
+    rep.evaluations += 1;
+    rep.count("print-widen-print-histories");
+    let run = real::guarded(|| {
+        let ra = a.to_real();
+        let first = ra.to_string();
+        let kept = ra.clone();
+        let c = ra | b.to_real();
+        let second = c.to_string();
+        let c2 = c.clone() | d.to_real();
+        let third = c2.to_string();
+        let again = kept.to_string();
+        (first, kept, c, second, c2, third, again)
+    });
+    let (first, kept, c, second, c2, third, again) = match run {
+        Ok(x) => x,
+        Err(p) => {
+            rep.violation(&format!("c15:history:panic:{}", p.site()), &format!("print / widen / print of {} | {} | {} panicked: {}", a.text(), b.text(), d.text(), p.short_msg()), "c15-type", &a.text());
+            return;
+        }
+    };
+    let _ = first;
+    let want_c = Ty::union([a.clone(), b.clone()]);
+    let want_c2 = Ty::union([a.clone(), b.clone(), d.clone()]);
+    for (what, real_t, text, want) in [("a | b", &c, &second, &want_c), ("a | b | d", &c2, &third, &want_c2), ("a (printed again after its clone was widened)", &kept, &again, a)] {
+        if Ty::from_real(real_t) != *want {
+            // the union itself is C10's matter; here only the text is judged, against the value it was printed from
+            rep.count("history:union-built-differently");
+        }
+        match real::guarded(|| Type::from_str(text)) {
+            Ok(Ok(back)) => {
+                if Ty::from_real(&back) != Ty::from_real(real_t) {
+                    rep.violation(
+                        "c15:history:stale-or-wrong-text",
+                        &format!("{what} for a = {}, b = {}, d = {}: the value {} prints as {text:?}, which parses to {}", a.text(), b.text(), d.text(), Ty::from_real(real_t).text(), Ty::from_real(&back).text()),
+                        "c15-history",
+                        &format!("{}\n{}\n{}", a.text(), b.text(), d.text()),
+                    );
+                    return;
+                }
+            }
+            Ok(Err(_)) => {
+                rep.violation("c15:history:text-rejected", &format!("{what}: {text:?} is rejected by Type::from_str"), "c15-history", &format!("{}\n{}\n{}", a.text(), b.text(), d.text()));
+                return;
+            }
+            Err(p) => {
+                rep.violation(&format!("c15:history:parse-panic:{}", p.site()), &format!("{what}: Type::from_str({text:?}) panicked"), "c15-history", &format!("{}\n{}\n{}", a.text(), b.text(), d.text()));
+                return;
+            }
+        }
+    }
+}
+
 /// `it ? T` executed in-language: which elements pass, compared with membership judged by the harness
 fn check_filter(t: &Ty, rep: &mut Report) {
     // elements with an unambiguous runtime type
@@ -121,6 +176,10 @@ pub fn run(cfg: &Cfg, rep: &mut Report) {
         if cfg.owns(i as u64) {
             check_type(t, reps, rep);
             check_filter(t, rep);
+            let n = uni.len();
+            for k in 0..4 {
+                check_history(t, &uni[(i * 7 + 3 + k * 101) % n], &uni[(i * 13 + 5 + k * 211) % n], rep);
+            }
         }
     }
     let mut rng = cfg.rng(15);
@@ -154,11 +213,23 @@ pub fn run(cfg: &Cfg, rep: &mut Report) {
         check_type(&t, reps.min(8), rep);
         if i % 8 == 0 {
             check_filter(&t, rep);
+            let b = gen_type(&mut rng, 1);
+            let d = gen_type(&mut rng, 2);
+            check_history(&t, &b, &d, rep);
         }
     }
 }
 
 pub fn replay(kind: &str, payload: &str, rep: &mut Report) {
+    if kind == "c15-history" {
+        let ts: Vec<Ty> = payload.lines().filter_map(|l| Type::from_str(l.trim()).ok()).map(|t| Ty::from_real(&t)).collect();
+        if ts.len() == 3 {
+            check_history(&ts[0], &ts[1], &ts[2], rep);
+        } else {
+            rep.notes.push("replay: expected three type texts".into());
+        }
+        return;
+    }
     let Ok(real_t) = Type::from_str(payload.trim()) else {
         rep.notes.push(format!("replay: cannot parse type {payload:?}"));
         return;
